@@ -127,8 +127,10 @@ def _lib_decrypt(api, enc, network, pw):
     elif api == 'HDKey-default':
         k = HDKey(enc, password=pw, network=network)
     elif api == 'func':
-        r = bip38_decrypt(enc, pw)
-        return ('func', r)
+        import inspect
+        if 'network' in inspect.signature(bip38_decrypt).parameters:    # (a tree that lets the caller name the network)
+            return ('func', bip38_decrypt(enc, pw, network=network))
+        return ('func', bip38_decrypt(enc, pw))
     else:
         k = Key(enc, password=pw, network=network)
     return bytes(k.private_byte), bool(k.compressed)
